@@ -15,6 +15,7 @@ from .terms import (
     Field,
     Function,
     Index,
+    Interval,
     Node,
     Order,
     Parameterizer,
@@ -313,7 +314,10 @@ class Column:
         self.type = column_type
         self.nullable = nullable
         self.default = (
-            default if default is None or isinstance(default, Term) else ValueWrapper(default)
+            # (an Interval renders itself under the dialect of the statement, like a term)
+            default
+            if default is None or isinstance(default, (Term, Interval))
+            else ValueWrapper(default)
         )
 
     def get_name_sql(self, ctx: SqlContext) -> str:
